@@ -170,16 +170,16 @@ End C05Instance.
 
 Import C05Instance.
 
-(** The hypotheses of [simple_is_view] hold and so does its conclusion: two
-    records, both in set, nothing left over that is out of set is required of
-    the third point only if it is decoded - here it is (same packet as point 2),
-    so this instance uses records = 2 with an in-set leftover... the third
-    point is out of set, hence the instance with one record below. *)
+(** The hypotheses of [simple_is_view] hold for one record: the raw iteration
+    succeeds, the limits are usable, the index records are integers, the point
+    returned and the point left in the queues (point 2, whose invalid state came
+    with the first packet... its coordinates did not, so it is not complete and
+    not left over) are in set. *)
 Example C05_instance_hypotheses :
   raw_run 1 = Ok (firstn 1 pts) /\
-  prepare_ranges (pc 1) <> Err EInvalid /\ index_records_are_integers (pc 1) = true /\
+  is_ok (prepare_ranges (pc 1)) = true /\ index_records_are_integers (pc 1) = true /\
   forallb (invalid_states_in_set (pc 1)) (firstn 2 pts) = true.
-Proof. repeat split; try (vm_compute; reflexivity). vm_compute. discriminate. Qed.
+Proof. repeat split; vm_compute; reflexivity. Qed.
 
 (** ... and for all 64 option vectors the simple iterator returns the views of the raw points *)
 Example C05_instance_all_options :
@@ -190,10 +190,10 @@ Example C05_instance_all_options :
 Proof. split; vm_compute; reflexivity. Qed.
 
 (** The value delivered with the default options: point 1 rotated a quarter turn about z
-    (x=1,y=2 -> x=-2,y=1 up to rounding of sqrt(1/2)^2) and translated by (1,2,3); intensity 255/255 = 1 as grey. *)
+    ((1,2,3) -> (-2,1,3) up to the rounding of sqrt(1/2)) and translated by (1,2,3); intensity 255/255 = 1 as grey. *)
 Example C05_instance_value :
   res_bits (simple_run 1 default_opts) =
-  Ok [[1; 0xbff0000000000002; 0x4008000000000000; 0x4018000000000000; 3;
+  Ok [[1; 0xbff0000000000002; 0x4008000000000000; 0x4018000000000001; 3;
        0x3f800000; 0x3f800000; 0x3f800000; 0x3f800000]].
 Proof. vm_compute. reflexivity. Qed.
 
@@ -206,13 +206,9 @@ Example C05_simple_is_view_without_leftover_refuted :
   raw_run 2 = Ok (firstn 2 pts) /\
   forallb (invalid_states_in_set (pc 2)) (firstn 2 pts) = true /\
   index_records_are_integers (pc 2) = true /\
-  (exists rgs, prepare_ranges (pc 2) = Ok rgs) /\
+  is_ok (prepare_ranges (pc 2)) = true /\
   simple_run 2 default_opts = Err EInvalid.
-Proof.
-  split; [vm_compute; reflexivity|]. split; [vm_compute; reflexivity|]. split; [vm_compute; reflexivity|].
-  split; [|vm_compute; reflexivity].
-  destruct (prepare_ranges (pc 2)) as [rgs| |] eqn:E; [exists rgs; reflexivity| |]; vm_compute in E; discriminate.
-Qed.
+Proof. repeat split; vm_compute; reflexivity. Qed.
 
 (** With all three records the raw iterator succeeds and the simple iterator
     fails for the documented reason; the points of the packets before the
